@@ -28,14 +28,16 @@ def run_shard(spec):
         text = sch.to_prophy()
         try:
             gen, nodes = cppdrv.prophyc_cpp(text, wd, full=True, raw=True)
-            lines = ['#include <cstdio>', '#include "sch.ppf.hpp"', '#include "sch.pp.hpp"', 'int main()', '{']
+            lines = ['#include <cstdio>', '#include <vector>', '#include <stdint.h>', '#include "sch.ppf.hpp"', '#include "sch.pp.hpp"', 'int main()', '{']
             for n in names:
                 lines.append('    printf("Z %s %%d %%zu\\n", int(prophy::generated::%s::encoded_byte_size), sizeof(::%s));'
                              % (n, n, n))
                 if w.tinfo(n)[2] == S.FIXED_S:
                     # a default-constructed object of a fixed type (optionals absent, first arms) must encode to that size
-                    lines.append('    { prophy::generated::%s x; printf("E %s %%zu %%zu\\n", x.encode().size(), x.get_byte_size()); }'
-                                 % (n, n))
+                    # (pointer overload into a buffer with plenty of room: an encoder that writes too much must show as a
+                    # number, not as a heap overrun that may or may not crash an uninstrumented program)
+                    lines.append('    { prophy::generated::%s x; std::vector<uint8_t> big(x.get_byte_size() + 4096); '
+                                 'printf("E %s %%zu %%zu\\n", x.encode(big.data()), x.get_byte_size()); }' % (n, n))
             lines += ['    return 0;', '}']
             path = os.path.join(wd, 'consts.cpp')
             with open(path, 'w') as f:
